@@ -1,4 +1,5 @@
 import EudoxiaModel.Model.Exec
+import EudoxiaModel.Model.Hyp
 import EudoxiaModel.Model.Dag
 import EudoxiaModel.Model.Profile
 import EudoxiaModel.Model.Trace
@@ -214,6 +215,10 @@ def step (d : DS) (line : String) : DS × String :=
     ({ d with ss := ss }, "{\"ok\":true}")
   | ["round", newp] => doRound d (parseList newp)
   | ["reset"] => ({}, "{\"ok\":true}")
+  | ["hyp", fut] =>
+    -- the decidable hypotheses of the whole-run theorems (Proofs/HypCheck.lean) on the world as it stands; `fut` = the pipelines still to arrive
+    (d, "{\"ok\":true,\"wfp\":" ++ jb d.w.wfpB ++ ",\"segs\":" ++ jb d.w.segsB ++ ",\"pid\":" ++ jb d.w.pidB ++ ",\"topo\":" ++ jb d.w.topoB ++
+         ",\"future\":" ++ jb (d.w.futureB (parseList fut)) ++ "}")
   | "rest" :: tps :: pn :: pd :: rest =>
     (d, match Lean.Json.parse (" ".intercalate rest) >>= (fun j => do (← DJ.arr j).mapM (fun x => do
             let l ← DJ.arr x
